@@ -17,6 +17,7 @@ import ast
 
 from ..alg import AlgError, Context, Rat
 from ..extract import Extractor, Opaque, PathRaises, ReturnValue, _dotted
+from ..model import inline_temporaries
 from ..model import Program, walk_own
 from ..report import AnalysisError
 from . import common
@@ -244,6 +245,61 @@ def r3(rep, mod, f):
 
 
 
+def leg_direction_rule(mod, fl, rep):
+    """the leg tracer's right-hand side is a unit vector along the poloidal field at the current
+    position: (dR, dZ)/dl = sign*(Bp_R, Bp_Z)/|Bp| evaluated at (pos[0], pos[1]); so the traced
+    leg stays on the flux surface through its first point"""
+    rhs = next((n for n in ast.walk(fl.node) if isinstance(n, ast.FunctionDef) and n is not fl.node and len(n.args.args) == 2
+                and any(isinstance(x, ast.Call) and T(mod, x.func) == "solve_ivp" and x.args and isinstance(x.args[0], ast.Name) and x.args[0].id == n.name for x in ast.walk(fl.node))), None)
+    if rhs is None:
+        rep.ob("R4", "the leg tracer integrates along the poloidal field direction", False, fl.site(), "unmodelled: no local function handed to solve_ivp", key="legs/direction")
+        return
+    ctx = Context()
+    ex = Extractor(ctx, mod)
+    pos = rhs.args.args[1].arg
+    R, Z = ctx.sym("R"), ctx.sym("Z")
+    ex.on_attr = lambda d, node, env: ctx.sym(d)
+    ex.on_subscript = lambda node, value, env: {"%s[0]" % pos: R, "%s[1]" % pos: Z}.get(T(mod, node)) or ctx.sym(T(mod, node))
+
+    def on_call(node, fname, args, kwargs, env):
+        if fname in ("self.Bp_R", "self.Bp_Z") and len(args) == 2 and all(isinstance(a, Rat) for a in args):
+            if not ((args[0] - R).is_zero() and (args[1] - Z).is_zero()):
+                raise WrongQuantity("%s is evaluated at (%s, %s), not at the current position of the trace" % (fname, args[0].show(), args[1].show()))
+            return ctx.sym("BR" if fname.endswith("_R") else "BZ")
+        if fname in ("numpy.sqrt", "np.sqrt", "sqrt") and len(args) == 1:
+            return ctx.call("sqrt", args[0])
+        raise AlgError("call %s" % fname)
+    ex.on_call = on_call
+    env = {"sign": ctx.sym("sign")}
+    ex.on_name = lambda name, env_: ctx.sym(name)  # closure variables of the tracer (sign, leg, ...) are opaque symbols
+    try:
+        ret = None
+        for st in rhs.body:
+            if isinstance(st, ast.Assign):
+                ex.stmt(st, env)
+            elif isinstance(st, ast.Return):
+                ret = st.value
+        if not (isinstance(ret, (ast.List, ast.Tuple)) and len(ret.elts) == 2):
+            raise AlgError("right-hand side does not return a pair")
+        a, b = ex.expr(ret.elts[0], env), ex.expr(ret.elts[1], env)
+        BR, BZ, sg = ctx.sym("BR"), ctx.sym("BZ"), ctx.sym("sign")
+        par = (a * BZ - b * BR).is_zero()
+        unit = ((a * a + b * b) * (BR * BR + BZ * BZ) - sg * sg * (BR * BR + BZ * BZ)).is_zero()
+        same_way = (a * BR + b * BZ).subs({"sign": 1})  # positive multiple of |Bp| for sign=+1
+        ok = par and unit and not (same_way + ctx.call("sqrt", BR * BR + BZ * BZ)).is_zero()
+        detail = "residual parallel: %s; unit: %s" % ((a * BZ - b * BR).residual()[:80], "ok" if unit else "not of length |sign|")
+    except WrongQuantity as e:
+        ok, detail = False, str(e)
+    except AlgError as e:
+        ok, detail = False, "not representable: %s" % e
+    rep.ob("R4", "the leg tracer integrates along the poloidal field direction: d(R,Z)/dl = sign*(Bp_R, Bp_Z)/|Bp| at the current position", ok, fl.site(rhs), detail, key="legs/direction")
+    # the sign: away from the X-point, i.e. the sign of (leg - xpoint) . Bp at the leg's first point
+    sg = [n for n in walk_own(fl.node) if isinstance(n, ast.Assign) and isinstance(n.targets[0], ast.Name) and n.targets[0].id == "sign"]
+    ok = len(sg) == 1 and T(mod, inline_temporaries(fl.node, sg[0].value, inline_calls=True, keep=("leg",))) in (
+        K("numpy.sign((leg[0] - xpoint.R) * self.Bp_R(*leg) + (leg[1] - xpoint.Z) * self.Bp_Z(*leg))"),)
+    rep.ob("R4", "the tracing direction is away from the X-point: sign = sign((leg - xpoint) . Bp(leg))", ok, fl.site(sg[0]) if sg else fl.site(), "", key="legs/direction-sign")
+
+
 class WrongQuantity(Exception):
     pass
 
@@ -376,6 +432,7 @@ def r4(prog, rep):
     src = T(mod, fl.node)
     ok, detail = _inner_outer(mod, fl)
     rep.ob("R4", "legs are labelled inner/outer by the major radius of their strike points (last point of each traced leg)", ok, fl.site(), detail, key="legs/inner-outer")
+    leg_direction_rule(mod, fl, rep)
     from ..stores import effects
     two = False
     for e in effects(fl.node, inline=False):
